@@ -708,6 +708,13 @@ func openOutputFile(outputName, inputName string, overwrite bool) (*os.File, err
 	if overwrite == false {
 		output, err := os.OpenFile(outputName, os.O_WRONLY|os.O_CREATE|os.O_EXCL, 0666)
 
+		if os.IsNotExist(err) {
+			// Attempt to create the full folder hierarchy to file (nothing is overwritten)
+			if err = os.MkdirAll(path.Dir(strings.ReplaceAll(outputName, "\\", "/")), os.ModePerm); err == nil {
+				output, err = os.OpenFile(outputName, os.O_WRONLY|os.O_CREATE|os.O_EXCL, 0666)
+			}
+		}
+
 		if os.IsExist(err) {
 			return nil, errOutputExists
 		}
